@@ -13,6 +13,7 @@ schema <sid> <present 0|1> <ok 0|1>
 dict <name> <present 0|1> <headerOk 0|1> <c1,c2,…|-|missing>
 deploy <now>               → decision / write / result / state lines, then `end`
 detect <lastBuild|state> <t1,t2,…|->        → `detect 0|1`   (`state`: use the model's last_build_time)
+detect <lastBuild|state> error               → `detect 1`     (an entry of a data directory cannot be examined)
 reset                      empty staging directory → `ok`
 drop cfg|table|prism|reverse <name>          artefact missing / unloadable → `ok`
 mark                       remember the staging directory (the state before a deployment that will be killed) → `ok`
@@ -175,6 +176,9 @@ def step (st : DState) (line : String) : DState × List String :=
       let st1 := r.2.2.foldl DState.noteEvent { st with arts := r.1 }
       (st1, r.2.2.map showEvent ++ ["result " ++ (if r.2.1 then "1" else "0")] ++ st1.showState ++ ["end"])
     | none => (st, ["bad-op"])
+  | ["detect", _, "error"] =>
+    -- a directory entry whose information cannot be read (a dangling link): the `catch` of `DetectModifications::Run`
+    (st, ["detect " ++ (if detectModificationsOnError then "1" else "0")])
   | ["detect", lb, ts] =>
     match (if lb == "state" then some st.arts.lastBuild else lb.toInt?), parseInts ts with
     | some lb, some ts => (st, ["detect " ++ (if detectModifications ts lb then "1" else "0")])
